@@ -26,7 +26,9 @@ MANIFEST = dict(
          "link or an independent copy as the mounts allow, and distinct sources never share a destination (invariant: "
          "all destinations so far are in the shared clashes_to_avoid set and pairwise distinct); C33_ff_contract — the "
          "model of fileformats' naming/clash-counter algorithm (single-path file-sets) meets the contract; C33_total / "
-         "C33_full — with that model and existing sources, whatever the workflow directory already holds, collection never fails "
+         "C33_full — with that model and existing sources, whatever the workflow directory already holds, collection never fails; "
+         "C33_save_safe — no collected file bears a name the engine keeps in that directory (`_result.pklz`, ...), so the "
+         "result pickle written afterwards is a new file and leaves every collected file and source intact "
          "(pigeonhole on the injective clash-counter names). Tie: copyfile_workflow / copy_nested_files are run on real "
          "temp files (directly and through real workflows under the debug worker) and the model and the executable spec "
          "are evaluated on the same cases inside Coq.",
@@ -64,7 +66,7 @@ RULE = ("nested list/tuple/dict values (depth <= 3) over real temp files and dir
         "occurring in two places")
 
 NAMES = ["f.txt", "f.txt", "f.txt", "g.txt", "f", "f (1).txt", ".hid", "a.b.c", "x.tar.gz", "d", "d.x", "f (1)",
-         "_job.pklz"]
+         "_job.pklz", "_result.pklz", "_error.pklz"]
 DIRS = ["d1", "d2", "d3", "d4"]
 
 
@@ -439,6 +441,7 @@ Definition spec_ok (c : case_t) : bool :=
   match r with
   | ORes outs' c1 c2 syms =>        (* "copied or hard-linked": never a symbolic link *)
       collected_b tab dest (strip c0) (strip c1) c2 fields outs' && match syms with [] => true | _ => false end
+      && forallb (fun d => negb (existsb (String.eqb (snd (snd d))) reserved_names)) (all_leaves outs')
   | OErr _ => false
   end.
 """
@@ -570,7 +573,7 @@ def one_case(ctx, rng, base, mode, spec=None):
         nontrivial = (len(names) != len(set(names)) and len(src_set) > 1) or len(leaves) != len(set(map(str, leaves)))
         meta = {"mode": mode, "values": desc_in, "table": [[sb.canon(p), t] for p, t in table] if table is not None else None,
                 "pre": pre, "n_leaves": len(leaves), "nontrivial": bool(nontrivial),
-                "taken": mode != "direct" and "_result.pklz" in names}
+                "taken": False}
         head = coqio.pair(enc_table(sb, table), coqio.string(sb.dest_canon), enc_snap(c0), coqio.lst(enc_in))
         if err is not None:
             before = {p: c for p, _, c in c0}
@@ -596,9 +599,23 @@ def one_case(ctx, rng, base, mode, spec=None):
 
 
 def classify(meta):
-    """Known finding F33a: run through a real workflow, an output file is named `_result.pklz`, the file the
-    engine writes into the workflow directory after collection."""
-    return "F33a" if meta.get("taken") else None
+    """No known finding is left for C33 (F33a was repaired: the reserved names are in the initial clash set)."""
+    return None
+
+
+MODEL_RESERVED = ("_result.pklz", "_job.pklz", "_return_values.pklz", "_error.pklz")   # Model.CopyFiles.reserved_names
+
+
+def reserved_names_failure():
+    """The model's constant against the live pydra.engine.result.RESERVED_CACHE_NAMES (fail closed)."""
+    try:
+        from pydra.engine.result import RESERVED_CACHE_NAMES as live
+    except ImportError:
+        live = None
+    if live is None or tuple(live) != MODEL_RESERVED:
+        return Failure(case={"constant": "pydra.engine.result.RESERVED_CACHE_NAMES"}, observed=repr(live),
+                       expected=repr(MODEL_RESERVED), kind="tie", note="reserved names differ from the model's")
+    return None
 
 
 def run(ctx):
@@ -652,6 +669,9 @@ def run(ctx):
                       {"outputs": m["outputs"]} if "outputs" in m else {"error": m.get("error_text")})
                       for m in metas if m["nontrivial"]][:4],
                   distribution=dist, traces_validated=len(metas))
+    rf = reserved_names_failure()
+    if rf is not None:
+        out.failures.append(rf)
     spec_bad = set(res["spec"])
     for i in sorted(spec_bad)[:30]:
         m = metas[i]
